@@ -242,7 +242,11 @@ def check_compat_guards(model, col, R):
                   "matrices: equal rows and columns; scalars: always; primitive vs aggregate, array vs non-array: never)", TYPES, ic)
 
 
-def run(model, col, tier):
+_SHARE = [True]
+
+
+def run(model, col, tier, share=True):
+    _SHARE[0] = share
     fcls = model.cls(TYPES, "Function")
     fm = fcls.own_method("Match")
     tm = model.func(TYPES, "Match")
@@ -386,8 +390,21 @@ def run(model, col, tier):
                 rr = resolve(r.value, ff_env)
                 if isinstance(rr, ast.Subscript) and isinstance(rr.value, ast.Subscript) and isinstance(rr.value.value, ast.Name) and unparse(rr.slice) == "1" and unparse(rr.value.slice) == "0":
                     RV = rr.value.value.id
+    # independent of how the ranking is spelled: the function folded over small score vectors
+    folded = fold_find_function(model, sc, ff)
+    if folded is not None:
+        col.check(not folded[1], "R10.2", f"{TYPES}::Scope.FindFunction over {folded[0]} score vectors", "unique lowest non-negative score wins; none -> no-matching error; tie for the lowest -> ambiguity error",
+                  "; ".join(folded[1][:3]) + f" ({len(folded[1])} of {folded[0]} vectors): the call binds to another candidate than the unique best one, or a resolvable call is rejected", TYPES, ff)
     if RV is None:
-        raise AnchorMissing(f"{TYPES}::Scope.FindFunction: no `return <ranking>[0][1]` found")
+        if folded is None:
+            raise AnchorMissing(f"{TYPES}::Scope.FindFunction: no `return <ranking>[0][1]` found")
+        # the ranking is written in a form the path rules below do not model (e.g. a single pass keeping the best so far):
+        # its outcomes are decided by the fold above; the unknown-name delegation is still read from the paths
+        deleg = any(status == "return" and evs[-1].node.value is not None and rtext(evs[-1].node.value, ff_env) == f"self.__parent.FindFunction({fn_}, {at_})"
+                    and cond_atoms(evs, ff_env).get(f"{fn_} in self.__functions") is False for evs, status in paths(ff.body))
+        col.check(deleg, "R10.2", f"{TYPES}::Scope.FindFunction outcome unknown-delegate", "an unknown name is looked up in the parent scope with the same name and argument types",
+                  "a name this scope does not know is not delegated to the parent scope", TYPES, ff)
+        return _run_tail(model, col, tier, sc, fm, fm_env)
     ff_env = {k: v for k, v in ff_env.items() if k != RV}
 
     def callable_body(f, bind):
@@ -520,6 +537,97 @@ def run(model, col, tier):
     # ... on *every* path of its kind (a second path of the same kind with another outcome is not excused by the first)
     col.check(not problems, "R10.2", f"{TYPES}::Scope.FindFunction every path has its outcome", "no path of any kind ends differently",
               "; ".join(sorted(set(problems))[:3]) + ": e.g. a tie that is only sometimes reported binds the call to whichever candidate was registered first", TYPES, ff)
+    return _run_tail(model, col, tier, sc, fm, fm_env)
+
+
+def fold_find_function(model, sc, ff):
+    """Scope.FindFunction folded over every vector of up to three candidate scores from {-1, 0, 1, 2, 5}: no viable candidate ->
+    the no-matching error, a unique lowest non-negative score -> that candidate, a tie for the lowest -> the ambiguity error.
+    -> (number of vectors folded, [counter-examples]) or None if the function is not foldable."""
+    import itertools
+
+    from ..miniev import CannotEval, Sample, run_pure
+    from ..sem import expand_helpers
+
+    try:
+        f = expand_helpers(model, sc, ff, skip=("v_", "FindFunction"))
+    except Exception:
+        f = ff
+    if len(f.args.args) != 3:
+        return None
+    selfn, fn_, at_ = (a.arg for a in f.args.args)
+
+    class Signal(Exception):
+        pass
+
+    calls = {}
+    for c in ast.walk(f):
+        if isinstance(c, ast.Call) and last_attr(c) == "Raise" and isinstance(c.func, ast.Attribute):
+            nm = unparse(c.func.value).split(".")[-1]
+
+            def mk(nm=nm):
+                def raiser(*a):
+                    raise Signal(nm)
+                return raiser
+
+            calls[unparse(c.func)] = mk()
+    fields = {n.attr for n in ast.walk(f) if isinstance(n, ast.Attribute) and isinstance(n.value, ast.Name) and n.value.id == selfn}
+    table = [x for x in fields if "unction" in x]
+    parent = [x for x in fields if "arent" in x]
+    if len(table) != 1:
+        return None
+    bad = []
+    n = 0
+    for k in (1, 2, 3):
+        for scores in itertools.product((-1, 0, 1, 2, 5), repeat=k):
+            cands = [Sample(f"candidate{i}:{s}", {"Match": (lambda *a, s=s: s)}) for i, s in enumerate(scores)]
+            env = {f"{selfn}.{table[0]}": {"f": cands}}
+            for p in parent:
+                env[f"{selfn}.{p}"] = None
+            try:
+                got = ("return", run_pure(f, [None, "f", "ARGS"], calls, 4000, env))
+            except Signal as sg:
+                got = ("error", str(sg))
+            except CannotEval:
+                return None
+            except Exception:
+                return None
+            n += 1
+            viable = [i for i, s in enumerate(scores) if s >= 0]
+            if not viable:
+                ok = got[0] == "error" and "NO_MATCHING" in got[1]
+                want = "the no-matching-overload error"
+            else:
+                m = min(scores[i] for i in viable)
+                best = [i for i in viable if scores[i] == m]
+                if len(best) > 1:
+                    ok = got[0] == "error" and "AMBIGUOUS" in got[1]
+                    want = "the ambiguity error"
+                else:
+                    ok = got[0] == "return" and got[1] is cands[best[0]]
+                    want = f"candidate {best[0]}"
+            if not ok:
+                bad.append(f"scores {list(scores)}: {got[0]} {got[1]!r}, expected {want}")
+    return n, bad
+
+
+def _run_tail(model, col, tier, sc, fm, fm_env):
+    if _SHARE[0]:
+        # the overload set a call is resolved against includes every function of an imported module: what lowering records
+        # for importers is a sequence of all of them, which the type pass registers one by one (= R16.5)
+        from ..report import Collector as _C105
+        from . import c16 as _c16
+
+        sub = _C105("C16")
+        _c16.run(model, sub, "quick")
+        n165 = 0
+        for ob in sub.obligations:
+            if ob.rule == "R16.5" and "Metadata" in ob.construct:
+                ob.detail = "[R16.5] " + (ob.detail or "")
+                ob.rule = "R10.3"
+                col.obligations.append(ob)
+                n165 += 1
+        col.floor("R10.3", "module-interface obligations shared with C16", n165, 2)
     rf = sc.own_method("RegisterFunction")
     from ..sem import local_env as _le, rtext as _rt
 
